@@ -1011,6 +1011,13 @@ func (s *Stage) finalize(file *finalFile) {
 		s.logDebug("Ignoring invalid (final):", file.name, existingState)
 		return
 	}
+	if cached := s.fromCache(file.path); cached != file {
+		// A newer version of this file took its place (and its staged body)
+		// while this one was waiting for its predecessor: logging this one's
+		// hash for the other one's bytes would make the log lie
+		s.logDebug("Ignoring superseded (final):", file.name)
+		return
+	}
 
 	if file.wait != nil {
 		file.wait.Stop()
